@@ -3,16 +3,21 @@ import LunarVerif.Proofs.C13
 # C13 — Endpoint policies apply only to requests matching their declared endpoint
 
 Property theorems only (helpers: `Proofs/UrlTree.lean`, `Proofs/C13.lean`).  Model: `Model/UrlTree.lean`
-(extensional trie), `Model/C13.lean` (`BuildEndpointPolicyTree` with explicit map identity, selection of
-`getRemedies`/`getDiagnoses`).  Spec: `Spec/UrlMatch.lean`, `Spec/C13.lean` (observable terms only).
-All `_partial` theorems quantify over every endpoint list, every request and every global configuration;
-their extra hypotheses are exactly the decidable classifiers of `Spec/C13.lean` (findings F13a–e), and each
-class has a `_violation_witness` showing that the hypothesis cannot be dropped on the unchanged code.
+(extensional trie), `Model/C13.lean` (`BuildEndpointPolicyTree` AFTER fixes/F13a.patch + fixes/F13e.patch,
+with explicit map identity; selection of `getRemedies`/`getDiagnoses`).  Spec: `Spec/UrlMatch.lean`,
+`Spec/C13.lean` (observable terms only).
+
+F13a (policy map of another matching pattern mutated and shared) and F13e (a repeated method+URL silently
+replaced the earlier declaration) are REPAIRED: no theorem below carries a hypothesis about cross-matching or
+duplicated declarations any more, and the former violation witnesses are now regression theorems
+(`regress_F13a`, `regress_F13e`).  The remaining `_partial` hypotheses are exactly the decidable classifiers
+of the findings still open in the trie (F13b, F13c, F13d, F13f), each with a `_violation_witness`.
+All theorems quantify over every endpoint list, every request and every global configuration.
 -/
 namespace LunarVerif.C13
 open LunarVerif.UrlTree LunarVerif.UrlMatch
 
-/-! ### witnesses: concrete declarations (already split, as `splitURL` does) -/
+/-! ### concrete declarations (already split, as `splitURL` does) -/
 
 def hostApiCom : List Part := [⟨true, .lit "api"⟩, ⟨true, .lit "com"⟩]
 /-- `GET api.com/users/{id}` → remedy A -/
@@ -31,70 +36,112 @@ def appliedRemedies (es : List Endpoint) (m : String) (u : List Part) : Option (
   | .ok pt => some (getRemedies pt noGlobals m u).1
   | .error _ => none
 
-/-- F13a.  Declared `[GET api.com/users/{id} → A, GET api.com/users/me → B]`: `GET api.com/users/123`
-    receives B — a policy whose pattern does not match it — and A is gone. -/
-theorem alias_violation_witness :
-    appliedRemedies [epUsersId, epUsersMe] "GET" urlUsers123 = some ["B"] ∧
-    «matches» epUsersMe.parts urlUsers123 = false ∧
-    (∃ pt, build [epUsersId, epUsersMe] = .ok pt ∧
-      soundOk [epUsersId, epUsersMe] "GET" urlUsers123 (observe pt noGlobals "GET" urlUsers123) = false) := by
-  refine ⟨by decide, by decide, ?_⟩
-  cases h : build [epUsersId, epUsersMe] with
-  | error e =>
-    have : (match build [epUsersId, epUsersMe] with | .ok _ => true | .error _ => false) = true := by decide
-    rw [h] at this
-    exact absurd this (by simp)
-  | ok pt =>
-    refine ⟨pt, rfl, ?_⟩
-    have : (match build [epUsersId, epUsersMe] with
-      | .ok pt => soundOk [epUsersId, epUsersMe] "GET" urlUsers123 (observe pt noGlobals "GET" urlUsers123)
-      | .error _ => true) = false := by decide
-    rw [h] at this
-    exact this
+/-! ### (S) soundness -/
 
-/-- The reverse declaration order behaves as intended: the outcome depends on the declaration order. -/
-theorem order_dependence_witness :
-    appliedRemedies [epUsersMe, epUsersId] "GET" urlUsers123 = some ["A"] ∧
-    appliedRemedies [epUsersId, epUsersMe] "GET" urlUsers123 = some ["B"] ∧
-    [epUsersMe, epUsersId].Perm [epUsersId, epUsersMe] := by
-  refine ⟨by decide, by decide, ?_⟩
-  exact List.Perm.swap _ _ _
-
-/-- (S) Soundness outside the excluded classes: if no declared URL is (laxly) matched by an EARLIER declared
-    different pattern (¬F13a), no declared pattern follows the request URL across the host/path boundary
-    (¬F13c) and the URL has no empty segment (¬F13d), then a policy is applied to `(m, u)` only if it was
-    declared for method `m` with a pattern that `matches` `u` — for every endpoint list, globals, request. -/
+/-- (S) For EVERY endpoint list that builds, in every declaration order, with overlapping and duplicated
+    declarations: if no declared pattern follows the request URL across the host/path boundary (¬F13c) and
+    the URL has no empty segment (¬F13d), a policy is applied to `(m, u)` only if it was declared for method
+    `m` with a pattern that `matches` `u`, and what is applied is exactly the enabled remedies and diagnoses
+    of the declarations for that method and pattern. -/
 theorem sound_partial (es : List Endpoint) (g : Globals) (pt : PTree) (m : String) (u : List Part)
-    (hbuild : build es = .ok pt)
-    (hF13a : crossMatchEarlier es = false) (hF13c : boundaryMix es u = false)
-    (hF13d : emptySegment u = false) :
+    (hbuild : build es = .ok pt) (hF13c : boundaryMix es u = false) (hF13d : emptySegment u = false) :
     soundOk es m u (observe pt g m u) = true := by
   have hne : urlNonEmpty u = true := by simpa [emptySegment] using hF13d
-  exact soundOk_of_select g m u (select_sound (build_inv hF13a hbuild) m u hne hF13c)
+  exact soundOk_of_inv (build_inv hbuild) g m u hne hF13c
 
-/-- non-vacuity of `sound_partial`: overlapping declarations in the benign order, a matching request. -/
+/-- Former F13a witness, now a regression: `[GET api.com/users/{id} → A, GET api.com/users/me → B]` in BOTH
+    declaration orders gives A to `api.com/users/123` and B to `api.com/users/me`. -/
+theorem regress_F13a :
+    appliedRemedies [epUsersId, epUsersMe] "GET" urlUsers123 = some ["A"] ∧
+    appliedRemedies [epUsersMe, epUsersId] "GET" urlUsers123 = some ["A"] ∧
+    appliedRemedies [epUsersId, epUsersMe] "GET" epUsersMe.parts = some ["B"] ∧
+    appliedRemedies [epUsersMe, epUsersId] "GET" epUsersMe.parts = some ["B"] := by
+  decide
+
+/-! ### (M) most specific, as far as the non-backtracking lookup guarantees it -/
+
+/-- (M) Outside F13c, F13d: the applied policy's pattern `p` is at least as specific (`specLE`:
+    literal > parameter > wildcard, position-wise, lexicographic) as EVERY declared pattern `q` that matches
+    the request — except when `passedOver p q`: `p` ends in `*` and `q` follows the same trie path up to that
+    `*` and continues with a literal/parameter there.  That exception is precisely the lookup's lack of
+    backtracking (after entering a literal/parameter child it can only fall back to the deepest `*` seen);
+    it never arises when the applied pattern does not end in `*`. -/
+theorem most_specific_partial (es : List Endpoint) (g : Globals) (pt : PTree) (m : String) (u : List Part)
+    (hbuild : build es = .ok pt) (hF13c : boundaryMix es u = false) (hF13d : emptySegment u = false) :
+    mostSpecificOk es m u (observe pt g m u) = true := by
+  have hne : urlNonEmpty u = true := by simpa [emptySegment] using hF13d
+  have hinv := build_inv hbuild
+  unfold mostSpecificOk
+  apply any_soundFor hinv g m u hne hF13c (fun e => mostSpecificFor es u e)
+  intro q i e hl hq _ _ hep
+  exact most_specific_of_inv hinv u hne hF13c hl hq hep
+
+/-- The `passedOver` exception is empty for patterns that do not end in `*`. -/
+theorem passedOver_only_wildcard (p q : Pattern) (h : passedOver p q = true) :
+    ∃ l, p.getLast? = some l ∧ l.seg = .wild := by
+  induction p generalizing q with
+  | nil => simp [passedOver] at h
+  | cons a p ih =>
+    cases q with
+    | nil => simp [passedOver] at h
+    | cons b q =>
+      cases p with
+      | nil => simp [passedOver] at h; exact ⟨a, rfl, h.1⟩
+      | cons c p =>
+        simp only [passedOver, List.isEmpty_cons, Bool.false_eq_true, if_false, Bool.and_eq_true] at h
+        obtain ⟨l, hl, hw⟩ := ih q h.2
+        exact ⟨l, by simpa [List.getLast?_cons_cons] using hl, hw⟩
+
+def epXY : Endpoint :=
+  ⟨"GET", "a.com/x/y", [⟨true, .lit "a"⟩, ⟨true, .lit "com"⟩, ⟨false, .lit "x"⟩, ⟨false, .lit "y"⟩], [⟨"A", 1, true⟩], []⟩
+def epPZ : Endpoint :=
+  ⟨"GET", "a.com/{p}/z", [⟨true, .lit "a"⟩, ⟨true, .lit "com"⟩, ⟨false, .par "p"⟩, ⟨false, .lit "z"⟩], [⟨"B", 2, true⟩], []⟩
+def epWildAll : Endpoint :=
+  ⟨"GET", "a.com/*", [⟨true, .lit "a"⟩, ⟨true, .lit "com"⟩, ⟨false, .wild⟩], [⟨"C", 3, true⟩], []⟩
+def urlXZ : List Part := [⟨true, .lit "a"⟩, ⟨true, .lit "com"⟩, ⟨false, .lit "x"⟩, ⟨false, .lit "z"⟩]
+def urlWZ : List Part := [⟨true, .lit "a"⟩, ⟨true, .lit "com"⟩, ⟨false, .lit "w"⟩, ⟨false, .lit "z"⟩]
+
+/-- The lookup does not backtrack: `a.com/x/z` is matched by the declared `a.com/{p}/z`, but the walk takes
+    the literal `x` and finds nothing (design of the trie; (M) is not a completeness claim). -/
+theorem no_backtracking_witness :
+    «matches» epPZ.parts urlXZ = true ∧
+    appliedRemedies [epXY, epPZ] "GET" urlXZ = some [] ∧
+    appliedRemedies [epXY, epPZ] "GET" urlWZ = some ["B"] := by
+  decide
+
+/-- The `passedOver` exception of (M) is real: with `a.com/*` also declared, `a.com/x/z` gets the `*` policy
+    although the matching `a.com/{p}/z` is more specific. -/
+theorem passed_over_witness :
+    appliedRemedies [epXY, epPZ, epWildAll] "GET" urlXZ = some ["C"] ∧
+    «matches» epPZ.parts urlXZ = true ∧ specLE epPZ.parts epWildAll.parts = false ∧
+    passedOver epWildAll.parts epPZ.parts = true := by
+  decide
+
+/-- non-vacuity of (S)/(M): two declared patterns match `api.com/users/me`, the literal one is applied. -/
 example :
-    crossMatchEarlier [epUsersMe, epUsersId] = false ∧ boundaryMix [epUsersMe, epUsersId] urlUsers123 = false ∧
-    emptySegment urlUsers123 = false ∧ appliedRemedies [epUsersMe, epUsersId] "GET" urlUsers123 = some ["A"] := by
+    boundaryMix [epUsersId, epUsersMe] epUsersMe.parts = false ∧ emptySegment epUsersMe.parts = false ∧
+    «matches» epUsersId.parts epUsersMe.parts = true ∧ «matches» epUsersMe.parts epUsersMe.parts = true ∧
+    appliedRemedies [epUsersId, epUsersMe] "GET" epUsersMe.parts = some ["B"] ∧
+    specLE epUsersId.parts epUsersMe.parts = true ∧ specLE epUsersMe.parts epUsersId.parts = false := by
   decide
 
 /-! ### (P) and (N): parameters and normalised URL -/
 
-/-- (P) Outside F13a–d: every extracted `(name, value)` is `{name}` in the applied policy's pattern at a
+/-- (P) Outside F13b–d: every extracted `(name, value)` is `{name}` in the applied policy's pattern at a
     position where the request URL has the segment `value`. -/
 theorem params_are_segments_partial (es : List Endpoint) (g : Globals) (pt : PTree) (m : String) (u : List Part)
-    (hbuild : build es = .ok pt)
-    (hF13a : crossMatchEarlier es = false) (hF13c : boundaryMix es u = false)
+    (hbuild : build es = .ok pt) (hF13c : boundaryMix es u = false)
     (hF13d : emptySegment u = false) (hF13b : wildDisplaced es u = false) :
     paramsOkA es m u (observe pt g m u) = true := by
   have hne : urlNonEmpty u = true := by simpa [emptySegment] using hF13d
-  have hinv := build_inv hF13a hbuild
+  have hinv := build_inv hbuild
   unfold paramsOkA
-  apply any_soundFor g m u (fun e => paramsOk e.parts u (observe pt g m u).params)
-    (select_sound hinv m u hne hF13c)
-  intro pol hp
-  obtain ⟨_, hpar⟩ := select_exact hinv m u hne hF13c hF13b pol hp
-  simp only [paramsOk, observe, hpar]
+  apply any_soundFor hinv g m u hne hF13c (fun e => paramsOk e.parts u (observe pt g m u).params)
+  intro q i e hl hq _ _ hep
+  obtain ⟨_, hpar⟩ := exact_of_inv hinv u hne hF13c hF13b hl hq
+  have hsp : (observe pt g m u).params = bindParams [] q u := by
+    simp only [observe, select_some hl]; exact hpar
+  simp only [paramsOk, hsp, hep]
   rw [List.all_eq_true]
   intro ⟨k, v⟩ hkv
   rcases bindParams_mem _ _ _ _ _ hkv with h | ⟨pu, hpu, h1, h2⟩
@@ -102,23 +149,20 @@ theorem params_are_segments_partial (es : List Endpoint) (g : Globals) (pt : PTr
   · rw [List.any_eq_true]
     exact ⟨pu, hpu, by simp [h1, h2]⟩
 
-/-- (N) Outside F13a–d: the reported normalised URL is the applied policy's declared pattern (which matches
+/-- (N) Outside F13b–d: the reported normalised URL is the applied policy's declared pattern (which matches
     the request, by `sound_partial`). -/
 theorem normalized_is_declared_and_matches_partial (es : List Endpoint) (g : Globals) (pt : PTree)
-    (m : String) (u : List Part) (hbuild : build es = .ok pt)
-    (hF13a : crossMatchEarlier es = false) (hF13c : boundaryMix es u = false)
+    (m : String) (u : List Part) (hbuild : build es = .ok pt) (hF13c : boundaryMix es u = false)
     (hF13d : emptySegment u = false) (hF13b : wildDisplaced es u = false) :
     normOk es m u (observe pt g m u) = true := by
   have hne : urlNonEmpty u = true := by simpa [emptySegment] using hF13d
-  have hinv := build_inv hF13a hbuild
+  have hinv := build_inv hbuild
   unfold normOk
-  apply any_soundFor g m u (fun e => (observe pt g m u).normParts == e.parts)
-    (select_sound hinv m u hne hF13c)
-  intro pol hp
-  obtain ⟨hnorm, _⟩ := select_exact hinv m u hne hF13c hF13b pol hp
-  simp [observe, hnorm]
+  apply any_soundFor hinv g m u hne hF13c (fun e => (observe pt g m u).normParts == e.parts)
+  intro q i e hl hq _ _ hep
+  obtain ⟨hnorm, _⟩ := exact_of_inv hinv u hne hF13c hF13b hl hq
+  simp only [observe, select_some hl, hnorm, hep, beq_self_eq_true]
 
-/-- `GET a.com/x/*` → remedy A (F13b witness). -/
 def epXWild : Endpoint :=
   ⟨"GET", "a.com/x/*", [⟨true, .lit "a"⟩, ⟨true, .lit "com"⟩, ⟨false, .lit "x"⟩, ⟨false, .wild⟩], [⟨"A", 1, true⟩], []⟩
 def urlX : List Part := [⟨true, .lit "a"⟩, ⟨true, .lit "com"⟩, ⟨false, .lit "x"⟩]
@@ -130,8 +174,8 @@ def reportedNorm (es : List Endpoint) (m : String) (u : List Part) : Option (Lis
   | .ok pt => (select pt m u).policy.map (fun _ => (select pt m u).norm)
   | .error _ => none
 
-/-- F13b.  Only `a.com/x/*` declared, request `a.com/x`: the policy is applied (the `*` swallows nothing)
-    but the reported normalised URL is `a.com/x`, which is not a declared pattern. -/
+/-- F13b (open).  Only `a.com/x/*` declared, request `a.com/x`: the policy is applied (the `*` swallows
+    nothing) but the reported normalised URL is `a.com/x`, which is not a declared pattern. -/
 theorem zero_segment_wildcard_violation_witness :
     reportedNorm [epXWild] "GET" urlX = some urlX ∧ urlX ≠ epXWild.parts ∧
     wildDisplaced [epXWild] urlX = true ∧
@@ -150,14 +194,12 @@ theorem zero_segment_wildcard_violation_witness :
     rw [h] at this
     exact this
 
-/-- non-vacuity of (P)/(N): a request with one more segment is outside every excluded class, the policy
-    is applied and the normalised URL is the declared pattern. -/
+/-- non-vacuity of (P)/(N). -/
 example :
-    crossMatchEarlier [epXWild] = false ∧ boundaryMix [epXWild] urlXY = false ∧ emptySegment urlXY = false ∧
+    boundaryMix [epXWild] urlXY = false ∧ emptySegment urlXY = false ∧
     wildDisplaced [epXWild] urlXY = false ∧ reportedNorm [epXWild] "GET" urlXY = some epXWild.parts := by
   decide
 
-/-- non-vacuity of (P): a parameter is extracted. -/
 example :
     wildDisplaced [epUsersMe, epUsersId] urlUsers123 = false ∧
     (match build [epUsersMe, epUsersId] with
@@ -165,81 +207,7 @@ example :
      | .error _ => false) = true := by
   decide
 
-/-! ### (M): most specific, as far as the non-backtracking lookup guarantees it -/
-
-/-- (M) Outside F13a, F13c, F13d: the applied policy's pattern `p` is at least as specific (`specLE`:
-    literal > parameter > wildcard, position-wise, lexicographic) as EVERY declared pattern `q` that matches
-    the request — except when `passedOver p q`: `p` ends in `*` and `q` follows the same trie path up to that
-    `*` and continues with a literal/parameter there.  That exception is precisely the lookup's lack of
-    backtracking (after entering a literal/parameter child it can only fall back to the deepest `*` seen);
-    it never arises when the applied pattern does not end in `*`. -/
-theorem most_specific_partial (es : List Endpoint) (g : Globals) (pt : PTree) (m : String) (u : List Part)
-    (hbuild : build es = .ok pt)
-    (hF13a : crossMatchEarlier es = false) (hF13c : boundaryMix es u = false)
-    (hF13d : emptySegment u = false) :
-    mostSpecificOk es m u (observe pt g m u) = true := by
-  have hne : urlNonEmpty u = true := by simpa [emptySegment] using hF13d
-  have hinv := build_inv hF13a hbuild
-  unfold mostSpecificOk
-  exact any_soundFor g m u (fun e => mostSpecificFor es u e) (select_sound hinv m u hne hF13c)
-    (select_most_specific hinv m u hne hF13c)
-
-/-- The `passedOver` exception is empty for patterns that do not end in `*`: an applied literal/parameter
-    pattern is a maximum of the matching declared patterns. -/
-theorem passedOver_only_wildcard (p q : Pattern) (h : passedOver p q = true) :
-    ∃ l, p.getLast? = some l ∧ l.seg = .wild := by
-  induction p generalizing q with
-  | nil => simp [passedOver] at h
-  | cons a p ih =>
-    cases q with
-    | nil => simp [passedOver] at h
-    | cons b q =>
-      cases p with
-      | nil => simp [passedOver] at h; exact ⟨a, rfl, h.1⟩
-      | cons c p =>
-        simp only [passedOver, List.isEmpty_cons, Bool.false_eq_true, if_false, Bool.and_eq_true] at h
-        obtain ⟨l, hl, hw⟩ := ih q h.2
-        exact ⟨l, by simpa [List.getLast?_cons_cons] using hl, hw⟩
-
-/-- `GET a.com/x/y`→A, `GET a.com/{p}/z`→B, `GET a.com/*`→C (pairwise no cross-match). -/
-def epXY : Endpoint :=
-  ⟨"GET", "a.com/x/y", [⟨true, .lit "a"⟩, ⟨true, .lit "com"⟩, ⟨false, .lit "x"⟩, ⟨false, .lit "y"⟩], [⟨"A", 1, true⟩], []⟩
-def epPZ : Endpoint :=
-  ⟨"GET", "a.com/{p}/z", [⟨true, .lit "a"⟩, ⟨true, .lit "com"⟩, ⟨false, .par "p"⟩, ⟨false, .lit "z"⟩], [⟨"B", 2, true⟩], []⟩
-def urlXZ : List Part := [⟨true, .lit "a"⟩, ⟨true, .lit "com"⟩, ⟨false, .lit "x"⟩, ⟨false, .lit "z"⟩]
-def urlWZ : List Part := [⟨true, .lit "a"⟩, ⟨true, .lit "com"⟩, ⟨false, .lit "w"⟩, ⟨false, .lit "z"⟩]
-
-/-- The lookup does not backtrack: `a.com/x/z` is matched by the declared `a.com/{p}/z`, but the walk takes
-    the literal `x` and finds nothing — no policy is applied (this is the design of the trie, stated here so
-    that (M) is not over-read as a completeness claim). -/
-theorem no_backtracking_witness :
-    «matches» epPZ.parts urlXZ = true ∧ crossMatch [epXY, epPZ] = false ∧
-    appliedRemedies [epXY, epPZ] "GET" urlXZ = some [] ∧
-    appliedRemedies [epXY, epPZ] "GET" urlWZ = some ["B"] := by
-  decide
-
-/-- non-vacuity of (M): two declared patterns match `api.com/users/me`, the literal one is applied. -/
-example :
-    crossMatchEarlier [epUsersMe, epUsersId] = false ∧
-    «matches» epUsersId.parts epUsersMe.parts = true ∧ «matches» epUsersMe.parts epUsersMe.parts = true ∧
-    appliedRemedies [epUsersMe, epUsersId] "GET" epUsersMe.parts = some ["B"] ∧
-    specLE epUsersId.parts epUsersMe.parts = true ∧ specLE epUsersMe.parts epUsersId.parts = false := by
-  decide
-
-def epWildAll : Endpoint :=
-  ⟨"GET", "a.com/*", [⟨true, .lit "a"⟩, ⟨true, .lit "com"⟩, ⟨false, .wild⟩], [⟨"C", 3, true⟩], []⟩
-
-/-- The `passedOver` exception of (M) is real: with `a.com/x/y`, `a.com/{p}/z`, `a.com/*` declared (in this
-    order: no declared URL is matched by an earlier pattern), `a.com/x/z` gets the `*` policy although the
-    matching `a.com/{p}/z` is more specific — the walk entered `x`, failed, and fell back to the `*`. -/
-theorem passed_over_witness :
-    crossMatchEarlier [epXY, epPZ, epWildAll] = false ∧
-    appliedRemedies [epXY, epPZ, epWildAll] "GET" urlXZ = some ["C"] ∧
-    «matches» epPZ.parts urlXZ = true ∧ specLE epPZ.parts epWildAll.parts = false ∧
-    passedOver epWildAll.parts epPZ.parts = true := by
-  decide
-
-/-! ### (G) and the connection theorem: the judge's per-request predicate holds of every model answer -/
+/-! ### (G), (D) and the connection theorem -/
 
 /-- (G) Global remedies/diagnoses and `shouldDiagnose` are as specified — unconditionally. -/
 theorem globals_ok (pt : PTree) (g : Globals) (m : String) (u : List Part) :
@@ -247,66 +215,28 @@ theorem globals_ok (pt : PTree) (g : Globals) (m : String) (u : List Part) :
 
 /-- Connection theorem.  `reqOk` — the very predicate `lvdriver_c13 judge` evaluates on the
     implementation's answers — is true of the model's answer to EVERY request on EVERY successfully built
-    endpoint list, outside the four excluded classes (whose members the judge labels F13a–d). -/
+    endpoint list, outside the three classes still open (whose members the judge labels F13b–d). -/
 theorem c13_holds_partial (es : List Endpoint) (g : Globals) (pt : PTree) (m : String) (u : List Part)
-    (hbuild : build es = .ok pt)
-    (hF13a : crossMatchEarlier es = false) (hF13b : wildDisplaced es u = false)
+    (hbuild : build es = .ok pt) (hF13b : wildDisplaced es u = false)
     (hF13c : boundaryMix es u = false) (hF13d : emptySegment u = false) :
     reqOk es g m u (observe pt g m u) = true := by
   unfold reqOk
-  rw [sound_partial es g pt m u hbuild hF13a hF13c hF13d,
-    most_specific_partial es g pt m u hbuild hF13a hF13c hF13d,
-    params_are_segments_partial es g pt m u hbuild hF13a hF13c hF13d hF13b,
-    normalized_is_declared_and_matches_partial es g pt m u hbuild hF13a hF13c hF13d hF13b,
+  rw [sound_partial es g pt m u hbuild hF13c hF13d,
+    most_specific_partial es g pt m u hbuild hF13c hF13d,
+    params_are_segments_partial es g pt m u hbuild hF13c hF13d hF13b,
+    normalized_is_declared_and_matches_partial es g pt m u hbuild hF13c hF13d hF13b,
     globals_ok]
   rfl
 
-/-! ### the remaining excluded classes are not empty on the unchanged code -/
-
-def urlEvil : List Part :=
-  [⟨true, .lit "a"⟩, ⟨true, .lit "com"⟩, ⟨true, .lit "evil"⟩, ⟨true, .lit "org"⟩, ⟨false, .lit "x"⟩]
-
-/-- F13c.  `a.com/*` is applied to the host `a.com.evil.org`. -/
-theorem boundary_violation_witness :
-    appliedRemedies [epWildAll] "GET" urlEvil = some ["C"] ∧ «matches» epWildAll.parts urlEvil = false ∧
-    boundaryMix [epWildAll] urlEvil = true ∧ crossMatchEarlier [epWildAll] = false ∧ emptySegment urlEvil = false := by
-  decide
-
-def epUserPosts : Endpoint :=
-  ⟨"GET", "a.com/users/{id}/posts",
-    [⟨true, .lit "a"⟩, ⟨true, .lit "com"⟩, ⟨false, .lit "users"⟩, ⟨false, .par "id"⟩, ⟨false, .lit "posts"⟩],
-    [⟨"A", 1, true⟩], []⟩
-/-- `a.com/users//posts` -/
-def urlEmptyId : List Part :=
-  [⟨true, .lit "a"⟩, ⟨true, .lit "com"⟩, ⟨false, .lit "users"⟩, ⟨false, .lit ""⟩, ⟨false, .lit "posts"⟩]
-
-/-- F13d.  `{id}` accepts the empty segment of `a.com/users//posts`. -/
-theorem empty_segment_violation_witness :
-    appliedRemedies [epUserPosts] "GET" urlEmptyId = some ["A"] ∧ «matches» epUserPosts.parts urlEmptyId = false ∧
-    emptySegment urlEmptyId = true ∧ boundaryMix [epUserPosts] urlEmptyId = false := by
-  decide
-
-def epX1 : Endpoint := ⟨"GET", "a.com/x", urlX, [⟨"A", 1, true⟩], []⟩
-def epX2 : Endpoint := ⟨"GET", "a.com/x", urlX, [⟨"B", 2, true⟩], []⟩
-
-/-- F13e.  The same method+URL declared twice with remedies of different types is accepted and the later
-    declaration replaces the earlier one: the outcome depends on the declaration order although no pattern
-    cross-matches another. -/
-theorem duplicate_key_order_witness :
-    appliedRemedies [epX1, epX2] "GET" urlX = some ["B"] ∧ appliedRemedies [epX2, epX1] "GET" urlX = some ["A"] ∧
-    crossMatch [epX1, epX2] = false ∧ dupKeys [epX1, epX2] = true := by
-  decide
-
-/-- (D) Outside F13a, F13c, F13d: the remedy that answers through the dispatcher (first of the endpoint-scoped
+/-- (D) Outside F13c, F13d: the remedy that answers through the dispatcher (first of the endpoint-scoped
     then global enabled remedies) is an enabled global remedy or an enabled remedy of an endpoint declared for
     the request's method whose pattern matches the request URL. -/
 theorem dispatch_sound_partial (es : List Endpoint) (g : Globals) (pt : PTree) (m : String) (u : List Part)
-    (first : String) (hbuild : build es = .ok pt)
-    (hF13a : crossMatchEarlier es = false) (hF13c : boundaryMix es u = false)
+    (first : String) (hbuild : build es = .ok pt) (hF13c : boundaryMix es u = false)
     (hF13d : emptySegment u = false) (hd : dispatchFirst pt g m u = some first) :
     dispOk es g m u first = true := by
   have hne : urlNonEmpty u = true := by simpa [emptySegment] using hF13d
-  have hinv := build_inv hF13a hbuild
+  have hinv := build_inv hbuild
   have hmem : first ∈ (getRemedies pt g m u).1 ++ (getRemedies pt g m u).2 := by
     unfold dispatchFirst at hd
     exact List.mem_of_mem_head? hd
@@ -317,12 +247,22 @@ theorem dispatch_sound_partial (es : List Endpoint) (g : Globals) (pt : PTree) (
     cases hp : (select pt m u).policy with
     | none => simp [getRemedies, hp] at h
     | some pol =>
-      obtain ⟨h1, h2, h3⟩ := select_sound hinv m u hne hF13c pol hp
-      simp only [getRemedies, hp, List.mem_map, List.mem_filter] at h
-      obtain ⟨r, ⟨hr, hen⟩, hname⟩ := h
+      obtain ⟨q, i, e, _, hq, hm, hpol, _, _, _, _⟩ := select_char hinv hne hp
+      simp only [getRemedies, hp, hpol, Policy.remedies, List.mem_map, List.mem_filter, List.mem_flatMap] at h
+      obtain ⟨r, ⟨⟨x, hx, hr⟩, hen⟩, hname⟩ := h
+      obtain ⟨hx1, hx2, hx3⟩ := mem_group.mp hx
       rw [List.any_eq_true]
-      refine ⟨pol.src, h1, ?_⟩
-      simp only [h2, h3, beq_self_eq_true, Bool.true_and, List.any_eq_true]
+      refine ⟨x, hx1, ?_⟩
+      have hmatch : «matches» x.parts u = true := by
+        rw [hx3]
+        apply matches_of_lax q u hm
+        have hb := hF13c
+        unfold boundaryMix at hb
+        rw [List.any_eq_false] at hb
+        have := hb x hx1
+        rw [hx3] at this
+        simpa using this
+      simp only [hx2, hmatch, beq_self_eq_true, Bool.true_and, List.any_eq_true]
       exact ⟨r, hr, by simp [hen, hname]⟩
   · left
     simp only [getRemedies, List.mem_map, List.mem_filter] at h
@@ -330,40 +270,91 @@ theorem dispatch_sound_partial (es : List Endpoint) (g : Globals) (pt : PTree) (
     rw [List.any_eq_true]
     exact ⟨r, hr, by simp [hen, hname]⟩
 
-/-- non-vacuity of (D), and the F13a witness seen through the dispatcher. -/
+/-- non-vacuity of (D). -/
 example :
-    (match build [epUsersMe, epUsersId] with
-     | .ok pt => dispatchFirst pt noGlobals "GET" urlUsers123 == some "A"
-     | .error _ => false) = true ∧
     (match build [epUsersId, epUsersMe] with
-     | .ok pt => dispatchFirst pt noGlobals "GET" urlUsers123 == some "B" &&
-                 !dispOk [epUsersId, epUsersMe] noGlobals "GET" urlUsers123 "B"
+     | .ok pt => dispatchFirst pt noGlobals "GET" urlUsers123 == some "A" &&
+                 dispOk [epUsersId, epUsersMe] noGlobals "GET" urlUsers123 "A"
      | .error _ => false) = true := by
+  decide
+
+/-! ### the classes still open are not empty -/
+
+def urlEvil : List Part :=
+  [⟨true, .lit "a"⟩, ⟨true, .lit "com"⟩, ⟨true, .lit "evil"⟩, ⟨true, .lit "org"⟩, ⟨false, .lit "x"⟩]
+
+/-- F13c (open).  `a.com/*` is applied to the host `a.com.evil.org`. -/
+theorem boundary_violation_witness :
+    appliedRemedies [epWildAll] "GET" urlEvil = some ["C"] ∧ «matches» epWildAll.parts urlEvil = false ∧
+    boundaryMix [epWildAll] urlEvil = true ∧ emptySegment urlEvil = false := by
+  decide
+
+def epUserPosts : Endpoint :=
+  ⟨"GET", "a.com/users/{id}/posts",
+    [⟨true, .lit "a"⟩, ⟨true, .lit "com"⟩, ⟨false, .lit "users"⟩, ⟨false, .par "id"⟩, ⟨false, .lit "posts"⟩],
+    [⟨"A", 1, true⟩], []⟩
+def urlEmptyId : List Part :=
+  [⟨true, .lit "a"⟩, ⟨true, .lit "com"⟩, ⟨false, .lit "users"⟩, ⟨false, .lit ""⟩, ⟨false, .lit "posts"⟩]
+
+/-- F13d (open).  `{id}` accepts the empty segment of `a.com/users//posts`. -/
+theorem empty_segment_violation_witness :
+    appliedRemedies [epUserPosts] "GET" urlEmptyId = some ["A"] ∧ «matches» epUserPosts.parts urlEmptyId = false ∧
+    emptySegment urlEmptyId = true ∧ boundaryMix [epUserPosts] urlEmptyId = false := by
   decide
 
 /-! ### (O): order independence -/
 
-/-- (O) If no declared pattern (as the trie keeps it) laxly matches another declared URL (¬F13a, symmetric
-    form), no declared pattern follows another declared URL across the host/path boundary (¬F13c among the
-    declarations) and no (method, pattern) is declared twice (¬F13e), then every permutation of the
-    declarations that also builds gives the same answer to EVERY request (no hypothesis on the request). -/
+/-- (O) For every permutation of the declarations that also builds: if no declared pattern follows another
+    declared URL across the host/path boundary (¬F13c among the declarations) and no declared pattern has a
+    `*` before its last part (¬F13f), EVERY request gets the same answer under both orders — same policy or
+    none, the same remedies and diagnoses (as multisets: duplicated declarations run in the order they are
+    written), same normalised URL and parameters.  Overlapping, cross-matching and duplicated declarations
+    are all covered. -/
 theorem order_independent_partial (es es' : List Endpoint) (g : Globals) (pt pt' : PTree)
     (m : String) (u : List Part) (hperm : es.Perm es')
     (hbuild : build es = .ok pt) (hbuild' : build es' = .ok pt')
-    (hF13a : crossMatch es = false) (hF13c : cfgBoundaryMix es = false) (hF13e : dupKeys es = false) :
-    observe pt g m u = observe pt' g m u := by
-  obtain ⟨hinv, h2⟩ := build_inv2 hF13a hF13c hF13e hbuild
-  obtain ⟨hinv', h2'⟩ := build_inv2 (crossMatch_perm hperm hF13a) (cfgBoundaryMix_perm hperm hF13c)
-    (dupKeys_perm hperm hF13e) hbuild'
-  have hsel := select_perm hinv h2 hinv' h2' (fun x hx => hperm.mem_iff.mp hx)
-    (fun x hx => hperm.mem_iff.mpr hx) (cfgBoundaryMix_false hF13c) m u
-  simp only [observe, getRemedies, getDiagnoses, shouldDiagnose, hsel]
+    (hF13c : cfgBoundaryMix es = false) (hF13f : starQuirk es = false) :
+    sameAnswer (observe pt g m u) (observe pt' g m u) = true :=
+  sameAnswer_of_select g m u
+    (select_perm (build_inv hbuild) (build_inv hbuild') hperm hF13c hF13f m u)
 
-/-- non-vacuity of (O): overlapping (but not cross-matching) declarations, both orders build and agree. -/
+def epX1 : Endpoint := ⟨"GET", "a.com/x", urlX, [⟨"A", 1, true⟩], []⟩
+def epX2 : Endpoint := ⟨"GET", "a.com/x", urlX, [⟨"B", 2, true⟩], []⟩
+
+/-- Former F13e witness, now a regression: the same method+URL declared twice with remedies of different
+    types keeps BOTH, in the order they are written. -/
+theorem regress_F13e :
+    appliedRemedies [epX1, epX2] "GET" urlX = some ["A", "B"] ∧
+    appliedRemedies [epX2, epX1] "GET" urlX = some ["B", "A"] := by
+  decide
+
+/-- non-vacuity of (O): cross-matching declarations (the former F13a class) in both orders. -/
 example :
-    crossMatch [epXY, epPZ] = false ∧ cfgBoundaryMix [epXY, epPZ] = false ∧ dupKeys [epXY, epPZ] = false ∧
-    [epXY, epPZ].Perm [epPZ, epXY] ∧
-    appliedRemedies [epXY, epPZ] "GET" urlWZ = some ["B"] ∧ appliedRemedies [epPZ, epXY] "GET" urlWZ = some ["B"] :=
-  ⟨by decide, by decide, by decide, List.Perm.swap _ _ _, by decide, by decide⟩
+    cfgBoundaryMix [epUsersId, epUsersMe] = false ∧ starQuirk [epUsersId, epUsersMe] = false ∧
+    [epUsersId, epUsersMe].Perm [epUsersMe, epUsersId] ∧
+    appliedRemedies [epUsersId, epUsersMe] "GET" urlUsers123 = some ["A"] ∧
+    appliedRemedies [epUsersMe, epUsersId] "GET" urlUsers123 = some ["A"] :=
+  ⟨by decide, by decide, List.Perm.swap _ _ _, by decide, by decide⟩
+
+def epWildWild : Endpoint :=
+  ⟨"GET", "a.com/*/*", [⟨true, .lit "a"⟩, ⟨true, .lit "com"⟩, ⟨false, .wild⟩, ⟨false, .wild⟩], [⟨"B", 2, true⟩], []⟩
+
+/-- F13f (open).  `validateURL` accepts `a.com/*/*`; the trie keeps it as a valueless `a.com/*` node that
+    REPLACES the node of a declared `a.com/*` when it is declared later: the `a.com/*` policy is applied in
+    one order and lost in the other. -/
+theorem star_quirk_order_violation_witness :
+    appliedRemedies [epWildWild, epWildAll] "GET" urlXY = some ["C"] ∧
+    appliedRemedies [epWildAll, epWildWild] "GET" urlXY = some [] ∧
+    starQuirk [epWildAll, epWildWild] = true ∧ cfgBoundaryMix [epWildAll, epWildWild] = false := by
+  decide
+
+/-- F13g (open; acceptance, not selection).  `checkForDuplicates` looks the new URL up as a request: with
+    remedies of one type, `users/{id}` then `users/me` is rejected, the reverse order is accepted. -/
+theorem acceptance_order_witness :
+    (match build [epUsersId, { epUsersMe with remedies := [⟨"B", 1, true⟩] }] with
+     | .error .duplicate => true | _ => false) = true ∧
+    (match build [{ epUsersMe with remedies := [⟨"B", 1, true⟩] }, epUsersId] with
+     | .ok _ => true | _ => false) = true := by
+  decide
 
 end LunarVerif.C13
